@@ -255,12 +255,19 @@ func DiffPointMapsTol(got, want map[string]map[int64]float64, tol func(k string,
 			gv, ok := gpts[t]
 			if !ok {
 				diffs = append(diffs, fmt.Sprintf("{%s}@%d missing, want %v", k, t, wv))
-			} else if !FloatEq(gv, wv) {
-				if tol != nil {
-					if e, unc := tol(k, t); unc || FloatEqTol(gv, wv, e) {
-						continue
+			} else if tol != nil {
+				e, unc := tol(k, t)
+				switch {
+				case unc:
+				case e == 0:
+					// an exactly computable point: the same float (or NaN on both sides)
+					if gv != wv && !(math.IsNaN(gv) && math.IsNaN(wv)) {
+						diffs = append(diffs, fmt.Sprintf("{%s}@%d = %v, want exactly %v", k, t, gv, wv))
 					}
+				case !FloatEqTol(gv, wv, e):
+					diffs = append(diffs, fmt.Sprintf("{%s}@%d = %v, want %v", k, t, gv, wv))
 				}
+			} else if !FloatEq(gv, wv) {
 				diffs = append(diffs, fmt.Sprintf("{%s}@%d = %v, want %v", k, t, gv, wv))
 			}
 		}
